@@ -28,13 +28,26 @@ def run(chk, replay=None):
         # the table is still needed for the driver/spec consistency check
         vf.tlc_gen("SceGen.tla", "SceGen2.cfg", env={"QXV_TABLE": tpath}, tag="SceTable")
     else:
-        (ex, st1), (sim, st2) = tracepar.par([
+        focus_cfg = "SceGenEme1.cfg" if quick else "SceGenEme2.cfg"
+        (ex, st1), (foc, st3), (sim, st2) = tracepar.par([
             lambda: vf.tlc_gen("SceGen.tla", "SceGen2.cfg" if quick else "SceGen3.cfg", env={"QXV_TABLE": tpath}),
+            # value focus: every encryption-method value x {fallback body, real body, both} x every further kind
+            # (thorough: every further pair); the configuration carries the invariants, so it is model-checked too
+            lambda: vf.tlc_gen("SceGen.tla", focus_cfg, env={"QXV_TABLE": ""}, timeout=2400),
             lambda: vf.tlc_simulate("SceGen.tla", "SceGenSim.cfg", num=40 if quick else 4000, depth=70, seed=chk.seed,
                                     workers=1, env={"QXV_TABLE": ""})])
+        chk.mc({"ok": True, "distinct": st3["distinct"], "states": st3["states"], "depth": 0, "wall_s": st3["wall_s"]}, focus_cfg)
         # only complete behaviours (ending in Recover) are of interest; prefixes are covered by them
-        behs = [b for b in ex + sim if b["steps"] and b["steps"][-1]["a"] == "Recover"]
-        chk.cov["generation"] = {"exhaustive_sets": st1, "simulate": st2}
+        seen = set()
+        behs = []
+        for b in ex + foc + sim:
+            if not (b["steps"] and b["steps"][-1]["a"] == "Recover"):
+                continue
+            key = tuple(st.get("k", st["a"]) for st in b["steps"])
+            if key not in seen:
+                seen.add(key)
+                behs.append(b)
+        chk.cov["generation"] = {"exhaustive_sets": st1, "value_focus": st3, "simulate": st2}
     table = vf._decode_gen(tpath)
     if not table:
         raise vf.MachineryError("SceGen did not export the kind table")
@@ -83,7 +96,9 @@ def run(chk, replay=None):
         raise vf.MachineryError(f"kinds never emitted by the implementation (setter without effect?): {sorted(set(part) - emitted)}")
     chk.cov["exhaustive"] = not replay
     chk.cov["rule"] = ("every consistent set of at most %d of the %d element kinds of spec/Sce.tla (one behaviour each: "
-                       "Set.., Split, Recover) + seeded random larger sets (TLC -simulate); each replayed on the real "
+                       "Set.., Split, Recover; a kind = an element in one value class, e.g. one per QXmpp::EncryptionMethod) + the "
+                       "value focus (every encryption method x fallback body / body / both x every further kind, thorough: pair) "
+                       "+ seeded random larger sets (TLC -simulate); each replayed on the real "
                        "QXmppMessage (setters with distinctive values; toXml(ScePublic), serializeExtensions(SceSensitive) in an "
                        "SCE <content/>, toXml(SceAll); parse public then sensitive into a fresh message) and validated by "
                        "SceTrace.tla, which evaluates NoLeak / Partition / Recover on the logged element kinds and raw-substring "
